@@ -60,7 +60,7 @@ func HarnessC04Txn(st any) {
 				return errInjected
 			}
 			// isolation: the transaction reads its own writes, the router still shows the old state
-			checkObsOpt(txn, model, probes, "txn (own writes)", sym.Param("iter") == 1)
+			checkObsOpt(txn, model, probes, "txn (own writes)", sym.ParamOr("iter", 1) == 1)
 			checkObs(s.r, pre, probes, "router while the transaction is open")
 			// a reader opened now sees the old state, too
 			ro := s.r.Txn(false)
